@@ -1,4 +1,6 @@
 
+val implb : bool -> bool -> bool
+
 val xorb : bool -> bool -> bool
 
 val negb : bool -> bool
@@ -28,6 +30,28 @@ type comparison =
 
 val compOpp : comparison -> comparison
 
+type uint =
+| Nil
+| D0 of uint
+| D1 of uint
+| D2 of uint
+| D3 of uint
+| D4 of uint
+| D5 of uint
+| D6 of uint
+| D7 of uint
+| D8 of uint
+| D9 of uint
+
+val revapp : uint -> uint -> uint
+
+val rev : uint -> uint
+
+module Little :
+ sig
+  val succ : uint -> uint
+ end
+
 val add : nat -> nat -> nat
 
 val mul : nat -> nat -> nat
@@ -52,6 +76,10 @@ module Nat :
 
   val min : nat -> nat -> nat
 
+  val to_little_uint : nat -> uint -> uint
+
+  val to_uint : nat -> uint
+
   val divmod : nat -> nat -> nat -> nat -> nat * nat
 
   val div : nat -> nat -> nat
@@ -69,7 +97,7 @@ val last : 'a1 list -> 'a1 -> 'a1
 
 val removelast : 'a1 list -> 'a1 list
 
-val rev : 'a1 list -> 'a1 list
+val rev0 : 'a1 list -> 'a1 list
 
 val rev_append : 'a1 list -> 'a1 list -> 'a1 list
 
@@ -1084,15 +1112,204 @@ val dec_bind : val0 -> bind0
 
 val dispatch_bind : z -> val0 -> val0 option
 
+type item0 = z
+
+type nthv = z
+
+val deny_after_exclude : bool -> z list -> z list -> z list
+
+type rev1 = nat * nat
+
+val major : rev1 -> nat
+
+val bump_major : rev1 -> rev1
+
+val bump_minor : rev1 -> rev1
+
+val compat : rev1 -> rev1 -> bool
+
+val rev_eqb : rev1 -> rev1 -> bool
+
+type cmd = z
+
+type sreq = { q_sort : bool; q_sync : bool; q_nth : nthv option;
+              q_cmd : cmd option; q_changed : bool; q_deny : z list;
+              q_rev : rev1 }
+
+type mreq = { r_id : nat; r_items : item0 list; r_query : str;
+              r_final : bool; r_sort : bool; r_rev : rev1; r_nth : nthv;
+              r_deny : z list }
+
+type st = { t_input : str; t_paused : bool; t_sort : bool; t_nth : nthv;
+            t_merger : mreq; t_count : nat; e_new : bool; e_fin : bool;
+            e_search : sreq option; e_sfin : mreq option; rd_alive : 
+            bool; rd_dirty : bool; cl : item0 list; c_reading : bool;
+            c_next : cmd option; c_query : str; c_sort : bool; c_nth : 
+            nthv; c_deny : z list; c_irev : rev1; c_srev : rev1;
+            c_usesnap : bool; c_snap : item0 list; c_count : nat;
+            m_pending : mreq option; m_running : mreq option;
+            g_deny : z list; g_last : mreq option; g_id : nat;
+            g_dclean : bool; g_cmd : cmd option; g_started : cmd option }
+
+val set_t_input : str -> st -> st
+
+val set_t_paused : bool -> st -> st
+
+val set_t_sort : bool -> st -> st
+
+val set_t_nth : nthv -> st -> st
+
+val set_t_merger : mreq -> st -> st
+
+val set_t_count : nat -> st -> st
+
+val set_e_new : bool -> st -> st
+
+val set_e_fin : bool -> st -> st
+
+val set_e_search : sreq option -> st -> st
+
+val set_e_sfin : mreq option -> st -> st
+
+val set_rd_alive : bool -> st -> st
+
+val set_rd_dirty : bool -> st -> st
+
+val set_cl : item0 list -> st -> st
+
+val set_c_reading : bool -> st -> st
+
+val set_c_next : cmd option -> st -> st
+
+val set_c_query : str -> st -> st
+
+val set_c_sort : bool -> st -> st
+
+val set_c_nth : nthv -> st -> st
+
+val set_c_deny : z list -> st -> st
+
+val set_c_irev : rev1 -> st -> st
+
+val set_c_srev : rev1 -> st -> st
+
+val set_c_usesnap : bool -> st -> st
+
+val set_c_snap : item0 list -> st -> st
+
+val set_c_count : nat -> st -> st
+
+val set_m_pending : mreq option -> st -> st
+
+val set_m_running : mreq option -> st -> st
+
+val set_g_deny : z list -> st -> st
+
+val set_g_last : mreq option -> st -> st
+
+val set_g_id : nat -> st -> st
+
+val set_g_dclean : bool -> st -> st
+
+val set_g_cmd : cmd option -> st -> st
+
+val set_g_started : cmd option -> st -> st
+
+type prim =
+| PSetQuery of str
+| PToggleSort
+| PExclude of z list
+| PChangeNth of nthv
+| PReload of cmd * bool
+| PToggleSearch
+| PEnableSearch
+| PDisableSearch
+
+type rules = { ru_merge : bool; ru_toggle_or : bool }
+
+val fixed_rules : rules
+
+type uiacc = { a_input : str; a_paused : bool; a_sort : bool; a_nth : 
+               nthv; a_newnth : nthv option; a_cmd : (cmd * bool) option;
+               a_changed : bool; a_deny : z list }
+
+val prim_step : rules -> uiacc -> prim -> uiacc
+
+val merge_req : rules -> sreq option -> sreq -> sreq
+
+val ui_step : rules -> st -> prim list -> st
+
+val c_input : st -> st
+
+val reset : st -> st
+
+val clear_deny : st -> st
+
+val restart : cmd -> st -> st
+
+val coord_read : st -> st
+
+val coord_search : st -> st
+
+val coord_sfin : st -> st
+
+type label =
+| LPush of item0 list
+| LPoll
+| LFin
+| LUi of prim list
+| LCoordRead
+| LCoordSearch
+| LCoordFin
+| LTake
+| LPublish
+| LCancel
+
+val step_r : rules -> st -> label -> st
+
+val step : st -> label -> st
+
+val run_r : rules -> st -> label list -> st
+
+val run : st -> label list -> st
+
+val init : str -> bool -> nthv -> st
+
+val effq : st -> str
+
+val quiescent : st -> bool
+
+val drain_labels : label list
+
+val as_prim : val0 -> prim
+
+val zseq : z -> nat -> z list
+
+val as_labels : val0 -> label list
+
+val zlist_eqb : z list -> z list -> bool
+
+val vopt : z option -> val0
+
+val observe : st -> val0
+
+val uptodate_b : st -> bool
+
+val run_mono : st -> label list -> st * bool
+
+val explore : str -> bool -> nthv -> label list -> val0
+
+val dispatch_coord : z -> val0 -> val0 option
+
 val mAXQ : nat
 
 val nLc : z
 
 val pATHSEP : z
 
-type item0 = z * str
+type item1 = z * str
 
-val idx : item0 -> z
+val idx : item1 -> z
 
 type act0 =
 | AChar of z
@@ -1135,7 +1352,7 @@ type act0 =
 | AClearSelection
 | ATruncate
 | ARender
-| AUpdate of item0 list * bool
+| AUpdate of item1 list * bool
 
 type zip = { zb : str; za : str; zk : str }
 
@@ -1185,31 +1402,31 @@ val clamp_pos : z -> z -> z
 
 val cur_move : bool -> z -> z -> z -> z
 
-val sel_mem : z -> item0 list -> bool
+val sel_mem : z -> item1 list -> bool
 
-val sel_remove : z -> item0 list -> item0 list
+val sel_remove : z -> item1 list -> item1 list
 
-val sel_add : z -> item0 -> item0 list -> bool * item0 list
+val sel_add : z -> item1 -> item1 list -> bool * item1 list
 
-val sel_toggle : z -> item0 -> item0 list -> bool * item0 list
+val sel_toggle : z -> item1 -> item1 list -> bool * item1 list
 
-val sel_add_all : z -> item0 list -> item0 list -> item0 list
+val sel_add_all : z -> item1 list -> item1 list -> item1 list
 
-val sel_remove_all : item0 list -> item0 list -> item0 list
+val sel_remove_all : item1 list -> item1 list -> item1 list
 
-val sel_toggle_all : z -> item0 list -> item0 list -> item0 list
+val sel_toggle_all : z -> item1 list -> item1 list -> item1 list
 
-val spec_output : item0 list -> item0 option -> item0 list
+val spec_output : item1 list -> item1 option -> item1 list
 
 type sparams = { sp_multi : z; sp_cycle : bool; sp_flip : bool; sp_page : 
                  z; sp_noinput : bool }
 
-type sstate = { ss_zip : zip; ss_res : item0 list; ss_pos : z;
-                ss_sel : item0 list }
+type sstate = { ss_zip : zip; ss_res : item1 list; ss_pos : z;
+                ss_sel : item1 list }
 
 val ss_count : sstate -> z
 
-val ss_current : sstate -> item0 option
+val ss_current : sstate -> item1 option
 
 val ecmd_of_spec : sstate -> act0 -> ecmd
 
@@ -1217,7 +1434,7 @@ val dirz : sparams -> bool -> z
 
 val with_pos : sstate -> z -> sstate
 
-val with_sel : sstate -> item0 list -> sstate
+val with_sel : sstate -> item1 list -> sstate
 
 val smove : sparams -> sstate -> bool -> sstate
 
@@ -1239,8 +1456,8 @@ type cfg = { c_multi : z; c_cycle : bool; c_default_layout : bool;
              c_inputless : bool; c_track : bool; c_maxitems : z;
              c_scrolloff : z; c_fileword : bool }
 
-type st = { s_input : str; s_cx : nat; s_yanked : str; s_res : item0 list;
-            s_cy : z; s_offset : z; s_sel : item0 list }
+type st0 = { s_input : str; s_cx : nat; s_yanked : str; s_res : item1 list;
+             s_cy : z; s_offset : z; s_sel : item1 list }
 
 val take : 'a1 list -> nat -> 'a1 list res
 
@@ -1264,87 +1481,87 @@ val find_first_next : (z -> bool) -> cfg -> str -> nat option
 
 val find_first_plus1 : (z -> bool) -> cfg -> str -> nat
 
-val count : st -> z
+val count : st0 -> z
 
-val set_edit : st -> str -> nat -> str -> st
+val set_edit : st0 -> str -> nat -> str -> st0
 
-val set_cy : st -> z -> st
+val set_cy : st0 -> z -> st0
 
-val set_sel : st -> item0 list -> st
+val set_sel : st0 -> item1 list -> st0
 
-val current_item : st -> item0 option res
+val current_item : st0 -> item1 option res
 
-val insert_at : st -> str -> st res
+val insert_at : st0 -> str -> st0 res
 
-val rubout : st -> (z -> z -> bool) -> st res
+val rubout : st0 -> (z -> z -> bool) -> st0 res
 
-val do_edit : (z -> bool) -> cfg -> st -> act0 -> st res
+val do_edit : (z -> bool) -> cfg -> st0 -> act0 -> st0 res
 
-val vset : st -> z -> st
+val vset : st0 -> z -> st0
 
-val vmove : cfg -> st -> z -> st
+val vmove : cfg -> st0 -> z -> st0
 
 val adjust : nat -> bool -> z -> z -> z -> z -> z -> z -> z res
 
 val constrain_loop : cfg -> nat -> z -> z -> z -> z -> (z * z) res
 
-val constrain : cfg -> st -> st res
+val constrain : cfg -> st0 -> st0 res
 
-val select_item : cfg -> item0 -> item0 list -> bool * item0 list
+val select_item : cfg -> item1 -> item1 list -> bool * item1 list
 
-val deselect_item : item0 -> item0 list -> item0 list
+val deselect_item : item1 -> item1 list -> item1 list
 
-val toggle_item : cfg -> item0 -> item0 list -> bool * item0 list
+val toggle_item : cfg -> item1 -> item1 list -> bool * item1 list
 
-val toggle_current : cfg -> st -> (bool * st) res
+val toggle_current : cfg -> st0 -> (bool * st0) res
 
-val select_all_loop : cfg -> item0 list -> item0 list -> item0 list
+val select_all_loop : cfg -> item1 list -> item1 list -> item1 list
 
-val deselect_all_loop : item0 list -> item0 list -> item0 list
+val deselect_all_loop : item1 list -> item1 list -> item1 list
 
 val toggle_all_first :
-  item0 list -> nat -> item0 list -> nat list * item0 list
+  item1 list -> nat -> item1 list -> nat list * item1 list
 
 val toggle_all_second :
-  cfg -> item0 list -> nat -> nat list -> item0 list -> item0 list
+  cfg -> item1 list -> nat -> nat list -> item1 list -> item1 list
 
 val multi_on : cfg -> bool
 
-val toggle_and_move : cfg -> st -> z -> st res
+val toggle_and_move : cfg -> st0 -> z -> st0 res
 
-val page_move : cfg -> st -> bool -> bool -> st
+val page_move : cfg -> st0 -> bool -> bool -> st0
 
-val find_index : z -> item0 list -> nat option
+val find_index : z -> item1 list -> nat option
 
-val update_list : cfg -> st -> item0 list -> bool -> st res
+val update_list : cfg -> st0 -> item1 list -> bool -> st0 res
 
-val do_list : cfg -> st -> act0 -> st res
+val do_list : cfg -> st0 -> act0 -> st0 res
 
 val is_edit : act0 -> bool
 
 val is_action : act0 -> bool
 
-val do_action : (z -> bool) -> cfg -> st -> act0 -> st res
+val do_action : (z -> bool) -> cfg -> st0 -> act0 -> st0 res
 
-val run : (z -> bool) -> cfg -> st -> act0 list -> st res
+val run0 : (z -> bool) -> cfg -> st0 -> act0 list -> st0 res
 
-val output : st -> item0 list res
+val output : st0 -> item1 list res
 
-val as_item0 : val0 -> item0
+val as_item0 : val0 -> item1
 
-val vitem : item0 -> val0
+val vitem : item1 -> val0
 
-val as_items : val0 -> item0 list
+val as_items : val0 -> item1 list
 
-val vitems : item0 list -> val0
+val vitems : item1 list -> val0
 
 val as_table : val0 -> z -> bool
 
 val as_cfg : val0 -> cfg
 
-val as_st : val0 -> st
+val as_st : val0 -> st0
 
-val vst : st -> val0
+val vst : st0 -> val0
 
 val as_act : val0 -> act0
 
@@ -1610,7 +1827,7 @@ type pres =
 
 val process : pstate -> str -> pres
 
-val run0 : nat -> scanner -> pstate -> ((pstate, str) sum * bool) res
+val run1 : nat -> scanner -> pstate -> ((pstate, str) sum * bool) res
 
 val total_len : str list -> nat
 
@@ -1690,7 +1907,7 @@ val oracle :
   bool -> bool -> 'a2 -> 'a1 list -> 'a1 list
 
 type 'item lop =
-| LPush of 'item
+| LPush0 of 'item
 | LReject
 | LClear
 | LSnap of nat
@@ -1795,11 +2012,11 @@ val merger_cache_max : z
 
 type revision = z * z
 
-val rev_eqb : revision -> revision -> bool
+val rev_eqb0 : revision -> revision -> bool
 
-type rules = { rule_prev : bool; rule_seq : bool; rule_gen : bool }
+type rules0 = { rule_prev : bool; rule_seq : bool; rule_gen : bool }
 
-val rules_fixed : rules
+val rules_fixed : rules0
 
 type ('item, 'pat) penv = { e_idx : ('item -> z);
                             e_matchf : ('pat -> 'item -> z option);
@@ -1807,7 +2024,7 @@ type ('item, 'pat) penv = { e_idx : ('item -> z);
                             e_pgen : ('pat -> nat);
                             e_cacheable : ('pat -> bool);
                             e_sortable : ('pat -> bool);
-                            e_empty : ('pat -> bool); e_rules : rules;
+                            e_empty : ('pat -> bool); e_rules : rules0;
                             e_tac : bool; e_parts : nat }
 
 type 'item result0 = 'item * z
@@ -1817,8 +2034,8 @@ type 'item chunk = nat * 'item list
 type 'item ccache = 'item result0 cache
 
 type ('item, 'pat) request = { r_chunks : 'item chunk list; r_pat : 'pat;
-                               r_final : bool; r_sort : bool; r_rev : 
-                               revision }
+                               r_final0 : bool; r_sort0 : bool;
+                               r_rev0 : revision }
 
 type 'item merger_body =
 | MPass of 'item list list
@@ -1880,7 +2097,7 @@ type ('item, 'pat) sstate0 = { s_cache : 'item ccache;
                                s_cancelled : bool; s_box : ('item, 'pat) box;
                                s_phase : 'item phase }
 
-type ('item, 'pat) label =
+type ('item, 'pat) label0 =
 | LWork of nat
 | LRecv
 | LCollect
@@ -1900,11 +2117,11 @@ val all_done : 'a1 worker list -> 'a1 result0 list list option
 val none_running : 'a1 worker list -> bool
 
 val sstep0 :
-  ('a1, 'a2) penv -> 'a2 -> bool -> ('a1, 'a2) sstate0 -> ('a1, 'a2) label ->
-  ('a1, 'a2) sstate0
+  ('a1, 'a2) penv -> 'a2 -> bool -> ('a1, 'a2) sstate0 -> ('a1, 'a2) label0
+  -> ('a1, 'a2) sstate0
 
 val srun0 :
-  ('a1, 'a2) penv -> 'a2 -> bool -> ('a1, 'a2) sstate0 -> ('a1, 'a2) label
+  ('a1, 'a2) penv -> 'a2 -> bool -> ('a1, 'a2) sstate0 -> ('a1, 'a2) label0
   list -> ('a1, 'a2) sstate0
 
 val sinit :
@@ -1913,7 +2130,7 @@ val sinit :
 
 val sidle : 'a1 ccache -> ('a1, 'a2) box -> ('a1, 'a2) sstate0
 
-val fair_sched : ('a1, 'a2) penv -> 'a1 chunk list -> ('a1, 'a2) label list
+val fair_sched : ('a1, 'a2) penv -> 'a1 chunk list -> ('a1, 'a2) label0 list
 
 type 'item mstate = { m_sort : bool; m_rev : revision;
                       m_mcache : (str * 'item merger) list; m_prev : 
@@ -1931,13 +2148,13 @@ val mc_decide :
 
 val loop_body :
   ('a1, 'a2) penv -> 'a1 mstate -> ('a1, 'a2) box -> ('a1, 'a2) request ->
-  ('a1, 'a2) label list -> (('a1 mstate * ('a1, 'a2) box) * 'a1 merger
+  ('a1, 'a2) label0 list -> (('a1 mstate * ('a1, 'a2) box) * 'a1 merger
   option) res
 
 type ('item, 'pat) event =
 | EPost of bool * ('item, 'pat) request
 | EInvalidate
-| EIter of bool * ('item, 'pat) label list
+| EIter of bool * ('item, 'pat) label0 list
 
 type ('item, 'pat) lstate = { l_m : 'item mstate; l_box : ('item, 'pat) box;
                               l_pubs : (('item, 'pat) request * 'item merger)
@@ -1971,7 +2188,7 @@ val vints : z list -> val0
 
 val as_ints : val0 -> z list
 
-val vopt : z list option -> val0
+val vopt0 : z list option -> val0
 
 val as_cop : val0 -> z cop
 
@@ -1987,7 +2204,7 @@ type wreq = (z, wpat) request
 
 type wchunk = nat * z list
 
-val wenv : rules -> bool -> nat -> (z, wpat) penv
+val wenv : rules0 -> bool -> nat -> (z, wpat) penv
 
 val chunk_find : wchunk list -> nat -> wchunk
 
@@ -1999,7 +2216,7 @@ val as_req : wpat list -> wchunk list -> val0 -> wreq
 
 val v_pub : (z, wpat) penv -> z merger -> val0
 
-val as_rules : val0 -> rules
+val as_rules : val0 -> rules0
 
 val as_env : val0 -> (z, wpat) penv
 
@@ -2273,7 +2490,7 @@ val history_set : cfg0 -> bool
 val exec :
   env -> okind -> str option -> cfg0 -> str list -> (cfg0 * nat) outcome res
 
-val step : env -> cfg0 -> str -> str list -> (cfg0 * nat) outcome res
+val step0 : env -> cfg0 -> str -> str list -> (cfg0 * nat) outcome res
 
 val go : env -> cfg0 -> nat -> str list -> cfg0 outcome res
 
@@ -2424,7 +2641,7 @@ val exitError : z
 
 val exitInterrupt : z
 
-type item1 = { it_index : nat; it_text : str; it_orig : str option }
+type item2 = { it_index : nat; it_text : str; it_orig : str option }
 
 type oopts = { o_ansi : bool; o_with_nth : bool; o_print0 : bool;
                o_print_query : bool; o_sort : bool; o_tac : bool;
@@ -2493,63 +2710,63 @@ val apply_nth : delim -> nth_fn -> str list -> z -> str res
 val ansi_processor : (str -> str) -> oopts -> str -> str
 
 val trans :
-  (str -> str) -> (nat -> str -> str) -> oopts -> nat -> str -> item1
+  (str -> str) -> (nat -> str -> str) -> oopts -> nat -> str -> item2
 
-val as_string : (str -> str) -> (str -> str) -> bool -> item1 -> str
+val as_string : (str -> str) -> (str -> str) -> bool -> item2 -> str
 
 val printer : bool -> str -> str -> str
 
 val stream_loop :
-  (str -> str) -> (str -> str) -> (nat -> str -> str) -> (item1 -> bool) ->
+  (str -> str) -> (str -> str) -> (nat -> str -> str) -> (item2 -> bool) ->
   oopts -> nat -> str list -> str -> bool -> str * bool
 
 val build_items :
-  (str -> str) -> (nat -> str -> str) -> oopts -> nat -> str list -> item1
+  (str -> str) -> (nat -> str -> str) -> oopts -> nat -> str list -> item2
   list
 
 val scan :
-  (item1 -> bool) -> (item1 list -> item1 list) -> bool -> oopts -> item1
-  list -> item1 list
+  (item2 -> bool) -> (item2 list -> item2 list) -> bool -> oopts -> item2
+  list -> item2 list
 
 val print_loop :
-  (str -> str) -> (str -> str) -> oopts -> item1 list -> str -> bool ->
+  (str -> str) -> (str -> str) -> oopts -> item2 list -> str -> bool ->
   str * bool
 
 val filter_mode :
-  (str -> str) -> (str -> str) -> (nat -> str -> str) -> (item1 -> bool) ->
-  (item1 list -> item1 list) -> bool -> oopts -> str -> str list -> str * z
+  (str -> str) -> (str -> str) -> (nat -> str -> str) -> (item2 -> bool) ->
+  (item2 list -> item2 list) -> bool -> oopts -> str -> str list -> str * z
 
 type topts = { to_ansi : bool; to_print0 : bool; to_print_query : bool;
                to_expect : bool; to_multi : nat;
                to_accept_nth : nth_fn option; to_delim : delim }
 
-type smap = (nat * (nat * item1)) list
+type smap = (nat * (nat * item2)) list
 
 type sstate1 = smap * nat
 
-val m_find : nat -> smap -> (nat * item1) option
+val m_find : nat -> smap -> (nat * item2) option
 
 val m_delete : nat -> smap -> smap
 
-val select_item0 : nat -> item1 -> sstate1 -> sstate1 * bool
+val select_item0 : nat -> item2 -> sstate1 -> sstate1 * bool
 
-val deselect_item0 : item1 -> sstate1 -> sstate1
+val deselect_item0 : item2 -> sstate1 -> sstate1
 
-val toggle_item0 : nat -> item1 -> sstate1 -> sstate1 * bool
+val toggle_item0 : nat -> item2 -> sstate1 -> sstate1 * bool
 
-val insert_by_time : (nat * item1) -> (nat * item1) list -> (nat * item1) list
+val insert_by_time : (nat * item2) -> (nat * item2) list -> (nat * item2) list
 
-val sort_selected : smap -> item1 list
+val sort_selected : smap -> item2 list
 
-type term = { t_merger : item1 list; t_cy : z; t_sel : sstate1;
-              t_queue : str list; t_input : str; t_pressed : str;
-              t_reading : bool; t_count : nat }
+type term = { t_merger0 : item2 list; t_cy : z; t_sel : sstate1;
+              t_queue : str list; t_input0 : str; t_pressed : str;
+              t_reading : bool; t_count0 : nat }
 
 val with_sel0 : term -> sstate1 -> term
 
 val with_cy : term -> z -> term
 
-val current_item0 : term -> item1 option res
+val current_item0 : term -> item2 option res
 
 val constrain0 : z -> z -> z -> z
 
@@ -2558,12 +2775,12 @@ val vset0 : term -> z -> term
 val vmove0 : term -> z -> term
 
 val accept_nth :
-  (str -> str) -> (str -> str) -> topts -> nth_fn -> item1 -> str res
+  (str -> str) -> (str -> str) -> topts -> nth_fn -> item2 -> str res
 
-val out_transform : (str -> str) -> (str -> str) -> topts -> item1 -> str res
+val out_transform : (str -> str) -> (str -> str) -> topts -> item2 -> str res
 
 val print_items :
-  (str -> str) -> (str -> str) -> topts -> item1 list -> str -> str res
+  (str -> str) -> (str -> str) -> topts -> item2 list -> str -> str res
 
 val output0 :
   (str -> str) -> (str -> str) -> topts -> term -> (str * bool) res
@@ -2584,7 +2801,7 @@ type action0 =
 | ALast0
 | APos0 of z
 | APrint of str
-| AUpdate0 of str * item1 list * z
+| AUpdate0 of str * item2 list * z
 | AAccept
 | AAcceptNonEmpty
 | AAcceptOrPrintQuery
@@ -2597,14 +2814,14 @@ type outcome1 =
 | Running of term
 | Exited of str * z
 
-val select_all_loop0 : nat -> item1 list -> sstate1 -> sstate1
+val select_all_loop0 : nat -> item2 list -> sstate1 -> sstate1
 
-val deselect_all_loop0 : item1 list -> sstate1 -> sstate1
+val deselect_all_loop0 : item2 list -> sstate1 -> sstate1
 
 val toggle_all_1 :
-  nat -> item1 list -> sstate1 -> nat list -> sstate1 * nat list
+  nat -> item2 list -> sstate1 -> nat list -> sstate1 * nat list
 
-val toggle_all_2 : nat -> nat -> item1 list -> sstate1 -> nat list -> sstate1
+val toggle_all_2 : nat -> nat -> item2 list -> sstate1 -> nat list -> sstate1
 
 val toggle_current0 : topts -> term -> (term * bool) res
 
@@ -2620,12 +2837,12 @@ val run_actions :
   res
 
 val select1_exit0 :
-  (str -> str) -> (str -> str) -> topts -> bool -> bool -> str -> item1 list
+  (str -> str) -> (str -> str) -> topts -> bool -> bool -> str -> item2 list
   -> (str * z) option res
 
 val interactive :
   (str -> str) -> (str -> str) -> bool -> topts -> bool -> bool -> str ->
-  item1 list -> nat -> action0 list -> outcome1 res
+  item2 list -> nat -> action0 list -> outcome1 res
 
 val tbl_lookup : (str * str) list -> str -> str
 
@@ -2633,7 +2850,7 @@ val as_tbl : val0 -> (str * str) list
 
 val as_bits : val0 -> bool list
 
-val match_by_index : bool list -> item1 -> bool
+val match_by_index : bool list -> item2 -> bool
 
 val as_oopts : val0 -> oopts
 
@@ -2651,9 +2868,9 @@ val as_delim : val0 -> delim
 
 val as_topts : val0 -> topts
 
-val pick_items : item1 list -> nat list -> item1 list
+val pick_items : item2 list -> nat list -> item2 list
 
-val as_action : item1 list -> val0 -> action0
+val as_action : item2 list -> val0 -> action0
 
 val d_interactive : val0 -> val0
 
@@ -2862,9 +3079,9 @@ type mode =
 
 type lst = { l_mode : mode; l_cur : str; l_acc : str list }
 
-val step0 : lst -> z -> lst option
+val step1 : lst -> z -> lst option
 
-val run1 : lst -> str -> lst option
+val run2 : lst -> str -> lst option
 
 val finish1 : lst -> str list option
 
@@ -3033,13 +3250,13 @@ val trim_with : (str -> nat) -> nat -> str -> str
 
 val trim_space0 : str -> str
 
-type item2 = z * str
+type item3 = z * str
 
 val min_int32 : z
 
 type params = { p_delim : str option; p_printsep : str; p_force_plus : 
-                bool; p_query : str; p_current : item2 list;
-                p_selected : item2 list; p_action : str; p_prompt : str;
+                bool; p_query : str; p_current : item3 list;
+                p_selected : item3 list; p_action : str; p_prompt : str;
                 p_fish : bool }
 
 type outp =
@@ -3064,16 +3281,16 @@ val s_empty_quotes : str
 
 val quoted : params -> str -> str * str
 
-val repl_item : params -> flags -> item2 -> str * str
+val repl_item : params -> flags -> item3 -> str * str
 
 val field_value : params -> flags -> rng list -> str -> str res
 
-val repl_fields : params -> flags -> rng list -> item2 -> (str * str) res
+val repl_fields : params -> flags -> rng list -> item3 -> (str * str) res
 
 val map_res0 : ('a1 -> 'a2 res) -> 'a1 list -> 'a2 list res
 
 val over_items :
-  params -> flags -> bool -> (item2 -> (str * str) res) -> str list ->
+  params -> flags -> bool -> (item3 -> (str * str) res) -> str list ->
   ((outp * str list) * str list) res
 
 val expand_ph :
@@ -3089,7 +3306,7 @@ val replace_placeholder : params -> str -> str list -> (str * str list) res
 
 val vopt_words : str list option -> val0
 
-val as_item1 : val0 -> item2
+val as_item1 : val0 -> item3
 
 val as_optstr : val0 -> str option
 
@@ -3112,7 +3329,7 @@ type args = { a_id : z; a_item : z; a_plus : z list option;
 
 val expansion : tmpl -> uistate -> args
 
-val zlist_eqb : z list -> z list -> bool
+val zlist_eqb0 : z list -> z list -> bool
 
 val opt_eqb : ('a1 -> 'a1 -> bool) -> 'a1 option -> 'a1 option -> bool
 
@@ -3134,7 +3351,7 @@ val none_alive : seen_cmd list -> bool
 
 val explains : args list -> args list -> bool
 
-type request0 = { r_t : tmpl; r_items : z list; r_query : str }
+type request0 = { r_t : tmpl; r_items0 : z list; r_query0 : str }
 
 val build_list : tmpl -> uistate -> z list
 
@@ -3171,7 +3388,7 @@ type state = { s_ui : uistate; s_tmpl : tmpl; s_visible : bool;
                s_evtquit : bool; s_ended : bool; s_tab : proc list;
                s_gen : (z * nat) option; s_clean : bool }
 
-val init : tmpl -> uistate -> state
+val init0 : tmpl -> uistate -> state
 
 val set_ui : state -> uistate -> nat -> state
 
@@ -3190,7 +3407,7 @@ val tmpl_eqb : tmpl -> tmpl -> bool
 
 val seen_eqb : (z * nat) option -> z -> nat -> bool
 
-type label0 =
+type label1 =
 | LMove of z
 | LQuery of str
 | LSel of z list
@@ -3199,13 +3416,13 @@ type label0 =
 | LToggle
 | LRender
 | LDisplay
-| LTake
+| LTake0
 | LSpawn
 | LReap
 | LTick
 | LTimer
 | LKill
-| LPoll
+| LPoll0
 | LOutput of str
 | LChildExit
 | LExit
@@ -3228,23 +3445,23 @@ val is_run : phase0 -> bool
 
 val exit_ready : exit_mode -> phase0 -> bool
 
-val step1 : policy -> label0 -> state -> state option
+val step2 : policy -> label1 -> state -> state option
 
-val step' : policy -> label0 -> state -> state
+val step' : policy -> label1 -> state -> state
 
-val run2 : policy -> label0 list -> state -> state
+val run3 : policy -> label1 list -> state -> state
 
-val run_strict : policy -> label0 list -> state -> state option
+val run_strict : policy -> label1 list -> state -> state option
 
-val enabled : policy -> label0 -> state -> bool
+val enabled : policy -> label1 -> state -> bool
 
-val internal_labels : label0 list
+val internal_labels : label1 list
 
 val stable : policy -> state -> bool
 
 val box_empty0 : state -> bool
 
-val quiescent : policy -> state -> bool
+val quiescent0 : policy -> state -> bool
 
 val as_tmpl : val0 -> tmpl
 
@@ -3252,7 +3469,7 @@ val as_ui : val0 -> uistate
 
 val as_pol : val0 -> policy
 
-val vopt0 : ('a1 -> val0) -> 'a1 option -> val0
+val vopt1 : ('a1 -> val0) -> 'a1 option -> val0
 
 val vints1 : z list -> val0
 
@@ -3264,21 +3481,21 @@ val as_args : val0 -> args
 
 val as_seen : val0 -> seen_cmd
 
-val as_label : val0 -> label0
+val as_label : val0 -> label1
 
 val vproc : proc -> val0
 
-val observe : policy -> state -> val0
+val observe0 : policy -> state -> val0
 
-val settle : label0 list
+val settle : label1 list
 
-val canonical : label0 list -> label0 list
+val canonical : label1 list -> label1 list
 
-val d_canonical : policy -> tmpl -> uistate -> label0 list -> val0
+val d_canonical : policy -> tmpl -> uistate -> label1 list -> val0
 
 val d_spec : tmpl -> uistate -> seen_cmd list -> val0
 
-val d_strict : policy -> tmpl -> uistate -> label0 list -> val0
+val d_strict : policy -> tmpl -> uistate -> label1 list -> val0
 
 val dispatch_preview : z -> val0 -> val0 option
 
@@ -3381,7 +3598,7 @@ val byEnd : z
 
 val byPathname : z
 
-type item3 = { it_index0 : z; it_text0 : str }
+type item4 = { it_index0 : z; it_text0 : str }
 
 type points = ((z * z) * z) * z
 
@@ -3413,7 +3630,7 @@ val fill_points :
   (z -> bool) -> z list -> z -> str -> span1 -> z -> points -> points res
 
 val build_result :
-  (z -> bool) -> z list -> item3 -> (z * z) list -> z -> result1 res
+  (z -> bool) -> z list -> item4 -> (z * z) list -> z -> result1 res
 
 val compare_ranks : result1 -> result1 -> bool -> bool
 
@@ -3540,17 +3757,17 @@ val split_acc : z -> str -> str -> str list
 
 val split_records : z -> str -> str list
 
-type item4 = nat * str
+type item5 = nat * str
 
-val number_from : nat -> str list -> item4 list
+val number_from : nat -> str list -> item5 list
 
 val header_of : nat -> str list -> str list
 
-val items_of : nat -> str list -> item4 list
+val items_of : nat -> str list -> item5 list
 
 val keep_tail : nat -> 'a1 list -> 'a1 list
 
-val searchable : bool -> nat -> nat -> str -> item4 list
+val searchable : bool -> nat -> nat -> str -> item5 list
 
 type slice1 = { sl_buf : nat; sl_off : nat; sl_len : nat }
 
@@ -3628,19 +3845,19 @@ val run_ops :
 
 type bstate = { b_header : str list; b_index : nat }
 
-val build : nat -> bstate -> str -> bstate * item4 option
+val build : nat -> bstate -> str -> bstate * item5 option
 
 val ingest :
-  nat -> nat -> bstate -> item4 chunklist -> str list -> (bstate * item4
+  nat -> nat -> bstate -> item5 chunklist -> str list -> (bstate * item5
   chunklist) res
 
 val pipeline :
   nat -> nat -> nat -> bool -> nat -> nat -> str -> nat list -> (str
-  list * item4 list) res
+  list * item5 list) res
 
 val as_nats : val0 -> nat list
 
-val vitem0 : item4 -> val0
+val vitem0 : item5 -> val0
 
 val vres_strs : str list res -> val0
 
@@ -3852,7 +4069,7 @@ val handle0 : cfg1 -> reqs -> term1 -> term1
 type upd = { u_query0 : str; u_matches : (nat * str) list; u_total : 
              nat; u_cy : nat; u_sel0 : nat list; u_reqs : reqs }
 
-val step2 : cfg1 -> term1 -> upd -> term1
+val step3 : cfg1 -> term1 -> upd -> term1
 
 val term_of_view : view -> term1
 
@@ -3885,6 +4102,194 @@ val as_rows : val0 -> row list
 val d_run : cfg1 -> term1 -> upd list -> val0 list
 
 val dispatch_render : z -> val0 -> val0 option
+
+type modes = { m_1000 : bool; m_1002 : bool; m_1003 : bool; m_1006 : 
+               bool; m_1015 : bool; m_2004 : bool; m_1049 : bool;
+               m_25 : bool; m_7 : bool; m_saved : bool; m_orphan : bool;
+               m_others : z list }
+
+val m0 : modes
+
+type mev =
+| MSet of z
+| MReset of z
+| MSave
+| MRestore
+
+val remove_z : z -> z list -> z list
+
+val set_mode : z -> bool -> modes -> modes
+
+val apply_ev : mev -> modes -> modes
+
+val apply_evs : mev list -> modes -> modes
+
+type pst =
+| Ground
+| Esc0
+| EscI
+| Csi of z * z list * z * bool * bool
+| Osc
+| OscEsc
+
+val inr : z -> z -> z -> bool
+
+val csi_final : z -> z list -> z -> bool -> z -> mev list
+
+val step_esc : z -> pst * mev list
+
+val step4 : pst -> z -> pst * mev list
+
+val events_from : pst -> z list -> pst * mev list
+
+val events : z list -> mev list
+
+val net_effect : z list -> modes -> modes
+
+val is_ground : pst -> bool
+
+val closed : z list -> bool
+
+val view_in_boundsb : z -> z -> z -> z -> bool
+
+type ledger = nat list
+
+val uint_bytes : uint -> z list
+
+val dec0 : z -> z list
+
+type cfg2 = { c_fullscreen : bool; c_clear : bool; c_mouse : bool;
+              c_inputless0 : bool; c_maxy : z; c_offset_ok : bool;
+              c_xpos : bool }
+
+type rstate = { r_mouse : bool; r_show : bool; r_up1 : bool; r_y : z;
+                r_raw : bool; r_queued : z list; r_out : z list }
+
+val set_queued : rstate -> z list -> rstate
+
+val set_out : rstate -> z list -> rstate
+
+val set_raw : rstate -> bool -> rstate
+
+val set_mouse : rstate -> bool -> rstate
+
+val set_show : rstate -> bool -> rstate
+
+val set_up1 : rstate -> bool -> rstate
+
+val set_y : rstate -> z -> rstate
+
+val keep_byte : z -> bool
+
+val r_stderr : z list -> rstate -> rstate
+
+val csi : z list -> rstate -> rstate
+
+val r_flush_raw : z list -> rstate -> rstate
+
+val pRE : z list
+
+val pOST_SHOW : z list
+
+val pOST_HIDE : z list
+
+val sMCUP : z list
+
+val rMCUP : z list
+
+val r_flush : rstate -> rstate
+
+val smcup : rstate -> rstate
+
+val rmcup : rstate -> rstate
+
+val enable_modes : rstate -> rstate
+
+val disable_mouse : rstate -> rstate
+
+val disable_modes : rstate -> rstate
+
+val make_space : rstate -> rstate
+
+val repeat_op : nat -> (rstate -> rstate) -> rstate -> rstate
+
+val find_offset : rstate -> rstate
+
+val hide_cursor : rstate -> rstate
+
+val show_cursor : rstate -> rstate
+
+val init_state : cfg2 -> rstate
+
+val r_init : cfg2 -> rstate -> rstate
+
+val origin : rstate -> rstate
+
+val r_pause : cfg2 -> bool -> rstate -> rstate
+
+val r_resume : cfg2 -> bool -> bool -> rstate -> rstate
+
+val r_close : cfg2 -> rstate -> rstate
+
+type lop0 =
+| LFrame of z list * z
+| LHide
+| LShow
+| LSuspend of bool * bool * z list
+
+val r_step : cfg2 -> rstate -> lop0 -> rstate
+
+val run_lifecycle : cfg2 -> lop0 list -> rstate
+
+val clampz0 : z -> z -> z -> z
+
+val so_phase : nat -> bool -> z -> z -> z -> z -> z -> z -> z res
+
+val constrain_iter : z -> z -> z -> z -> z -> (z * z) res
+
+val constrain_loop1 : nat -> z -> z -> z -> z -> z -> (z * z) res
+
+val constrain2 : z -> z -> z -> z -> z -> (z * z) res
+
+type tstate = { t_next : nat; t_ledger : ledger; t_preview : nat list;
+                t_newcmd : nat list; t_box : nat list; t_nextcmd : nat list;
+                t_running : nat list; t_reading0 : bool; t_exited : bool }
+
+val t0 : tstate
+
+val in_list : nat -> nat list -> bool
+
+val remove_files : nat list -> ledger -> ledger
+
+type tev =
+| TScroll of nat
+| TExecute of bool * bool * nat
+| TPreviewStart of nat * bool
+| TPreviewDone
+| TReloadAct of bool * nat
+| TActionsEnd
+| TCoordTake
+| TReadFin
+| TBecome of bool * nat
+| TExit
+
+val t_step : tstate -> tev -> tstate
+
+val t_run : tstate -> tev list -> tstate
+
+val vmodes : modes -> val0
+
+val vev : mev -> val0
+
+val as_cfg1 : val0 -> cfg2
+
+val as_lop0 : val0 -> lop0
+
+val as_tev : val0 -> tev
+
+val vres2 : (z * z) res -> val0
+
+val dispatch_term : z -> val0 -> val0 option
 
 val is_blank1 : z -> bool
 
